@@ -53,7 +53,7 @@ Lexemes(fam) ==
            ROpen, RClose, R12, R2, R01>>
     [] fam = "case" ->
          <<P(cA), P(cUA), P(cEAC), P(cSEP), P(cSTAR), Tree, ClsA, ClsNA, ClsUA, FlagI, FlagNI,
-           Open, Comma, Close>>
+           Open, Comma, Close, P(453)>>     \* 453: a titlecase letter (neither lower nor upper case, folds to 454)
     [] fam = "dots" ->
          <<P(cDOT), P(cA), P(cSEP), P(cSTAR), P(cDOL), Tree, Open, Comma, Close,
            ROpen, RClose, R01, R1x, R2, ClsDot, ClsStar>>
@@ -70,15 +70,18 @@ Lexemes(fam) ==
            \* non-ASCII characters whose code point, truncated to a byte, is a meta-character, a separator or
            \* a backslash: U+0424 (dollar), U+015B (left bracket), U+012A (asterisk), U+013F (question mark),
            \* U+012F (slash), U+015C (backslash), U+7329 (right parenthesis)
-           P(1060), P(347), P(298), P(319), P(303), P(348), P(29481)>>
+           P(1060), P(347), P(298), P(319), P(303), P(348), P(29481),
+           \* white space and control characters: tab, no-break space, line separator, ideographic space
+           P(9), P(160), P(8232), P(12288)>>
     [] fam = "flags" ->   \* flag placement: before, inside and after branches, next to classes
-         <<P(cA), P(cUA), FlagI, FlagNI, Open, Comma, Close, ROpen, R12, ClsA>>
+         <<P(cA), P(cUA), FlagI, FlagNI, Open, Comma, Close, ROpen, R12, ClsA, P(49)>>   \* 1: a literal without case
     [] fam = "rng" ->   \* ranges whose bounds lie below, on and above the separator
          RngLex \o <<P(cA), P(cSEP), P(cQ)>>
     [] fam = "cls2" ->   \* classes with several members, negated ranges, escaped members; escaped literals
          <<P(cA), P(cSEP), P(cQ), L(<<cLB, cA, cB, cRB>>, 0), L(<<cLB, cBANG, cA, cB, cRB>>, 0),
            L(<<cLB, cBANG, cA, cDASH, cB, cRB>>, 0), L(<<cLB, cA, cBS, cRB, cRB>>, 0), L(<<cLB, cBS, cDASH, cRB>>, 0),
            L(<<cLB, cA, cSEP, cRB>>, 0), L(<<cBS, cSTAR>>, 0), L(<<cBS, cLB>>, 0), L(<<cBS, cBS>>, 0),
+           L(<<cBS, cLP>>, 0), L(<<cBS, cRP>>, 0), L(<<cLB, cLP, cRB>>, 0),     \* parentheses: escaped, in a class
            FlagI, Open, Comma, Close>>
     [] fam = "bnd" ->    \* every way of writing repetition bounds (defaults, open ends, equal, reversed, zeros)
          <<P(cA), P(cSEP), ROpen, RClose, L(<<cCOL, cGT>>, 5), L(<<cCOL, 48, cGT>>, 5), R1, L(<<cCOL, 51, cGT>>, 5),
@@ -96,6 +99,7 @@ Lexemes(fam) ==
     [] fam = "punct" ->  \* characters that mean something in the regular expressions the code compiles to, as
                          \* literals and as class members: . + | ^ # & ~ space =
          <<P(cDOT), P(43), P(124), P(94), P(35), P(38), P(126), P(32), P(61), P(cA), P(cSEP), P(cSTAR),
+           P(9), P(8232), P(12288),     \* tab, line separator, ideographic space
            L(<<cLB, 38, 38, cRB>>, 0), L(<<cLB, 126, 94, cRB>>, 0), L(<<cLB, 124, cRB>>, 0), L(<<cLB, cBANG, 32, 35, cRB>>, 0),
            \* members that spell a set operator of the regex crate when left unescaped: ~~  --  &&
            L(<<cLB, cA, 126, 126, 43, cRB>>, 0), L(<<cLB, cBANG, cA, 126, 126, cRB>>, 0),
